@@ -1290,3 +1290,51 @@ def module_state(rep, M, rid, prefixes=SYMMETRY_SIDE, roots=None):
                       "memo key gets the answer of the first", f"{mname.replace('.', '/')}.py:{getattr(node, 'lineno', 0)}")
     if not hits:
         rep.ok(rid, f"no function of the {n_mod} modules writes into module-level state or memoises with functools ({n_fn} functions scanned)")
+
+
+# ----------------------------------------------------------------------------- polarity rules that came out of the mutation audit
+def ground_state_consistency_raises(rep, M, rid):
+    """_find_wyckoff_ground_state: equally ranked candidates must agree on their (letter, element) counts, otherwise an error is raised. Each such raise
+    is control-dependent on an *inequality* of data of two candidates - with `==` every crystal that has more than one best candidate raises"""
+    fn = M.func(GS)
+    from .dataflow import Flow
+    fl = Flow(fn)
+    n = 0
+    for lp in [x for x in ast.walk(fn) if isinstance(x, ast.For) and isinstance(x.iter, ast.Subscript) and isinstance(x.iter.slice, ast.Slice)]:
+        for r in [x for x in ast.walk(lp) if isinstance(x, ast.Raise)]:
+            conds = [(t, pol) for t, pol in fl.cfg.branch_conditions(fl.node_of(r)) if isinstance(t, ast.If) and any(x is r for x in ast.walk(t))]
+            inner = [(t, pol) for t, pol in conds if isinstance(t.test, ast.Compare) and len(t.test.ops) == 1 and isinstance(t.test.ops[0], (ast.Eq, ast.NotEq))]
+            if not inner:
+                continue
+            n += 1
+            t, pol = inner[-1]
+            differs = (isinstance(t.test.ops[0], ast.NotEq) and pol) or (isinstance(t.test.ops[0], ast.Eq) and not pol)
+            if differs:
+                rep.ok(rid, f"_find_wyckoff_ground_state: `{norm(r)}` only when `{norm(t.test)[:50]}`")
+            else:
+                rep.violation(rid, f"_find_wyckoff_ground_state: `{norm(t.test)[:50]}` -> raise", "the error for inconsistent equally-ranked candidates is raised when they *agree*: "
+                              "every crystal with more than one best candidate (any structure whose occupied positions are permuted among themselves by a normalizer) ends in "
+                              "CellNormalizationError", M.where(GS, t))
+    if n < 2:
+        raise AnalysisError(f"_find_wyckoff_ground_state: consistency tests of equally ranked candidates recognised at {n} site(s) (2 confirmed by hand)")
+
+
+def lazy_init_polarity(rep, M, rid, methods):
+    """`if self._x is None: self.<compute>()` before `self._x[...]` is read: the guard must run the computation when the value is missing"""
+    n = 0
+    for name in methods:
+        fq = SA + "." + name
+        fn = M.func(fq)
+        for t in ast.walk(fn):
+            if isinstance(t, ast.If) and isinstance(t.test, ast.Compare) and len(t.test.ops) == 1 and isinstance(t.test.comparators[0], ast.Constant) \
+                    and t.test.comparators[0].value is None and isinstance(t.test.left, ast.Attribute) and norm(t.test.left.value) == "self" and not t.orelse \
+                    and len(t.body) == 1 and isinstance(t.body[0], ast.Expr) and isinstance(t.body[0].value, ast.Call) and isinstance(t.body[0].value.func, ast.Attribute) \
+                    and norm(t.body[0].value.func.value) == "self":
+                n += 1
+                if isinstance(t.test.ops[0], (ast.Is, ast.Eq)):
+                    rep.ok(rid, f"{name}: `{norm(t.body[0])}` runs when `{norm(t.test.left)}` is missing")
+                else:
+                    rep.violation(rid, f"{name}: `{norm(t.test)}`", f"`{norm(t.body[0])}` runs only when `{norm(t.test.left)}` is already there: on a fresh analyzer the value is "
+                                  "still None when it is subscripted", M.where(fq, t))
+    if n < 1:
+        raise AnalysisError(f"lazy initialisation guards in {methods}: none recognised")
